@@ -300,7 +300,7 @@ def run_stack(case, stats):
                     pass
 
                 async def __aexit__(self, *x):
-                    e(i, kw=i)
+                    e(i, kw=i, callback=i, self=i)
                     return False
 
             async with W():
@@ -332,7 +332,7 @@ def run_stack(case, stats):
                     if s.push(e) is not e:
                         misc.append("push did not return its argument")
                 else:
-                    if s.callback(e, i, kw=i) is not e:
+                    if s.callback(e, i, kw=i, callback=i, self=i) is not e:
                         misc.append("callback did not return its argument")
             l2.append(("body",))
             if body:
@@ -385,7 +385,7 @@ class _Adapter:
         elif kind == "spush":
             self.s.push(obj)
         else:
-            self.s.callback(obj, i, kw=i)
+            self.s.callback(obj, i, kw=i, callback=i, self=i)
 
     async def enter(self, kind, obj):
         if kind == "acm":
@@ -414,7 +414,7 @@ class _Native:
         if kind in ("apush", "spush"):
             self.s.push(obj)
         else:
-            self.s.callback(obj, i, kw=i)
+            self.s.callback(obj, i, kw=i, callback=i, self=i)
 
     async def enter(self, kind, obj):
         return await self.s.enter_context(obj)
@@ -607,13 +607,13 @@ def model_history(ops):
                 entry = pending[k].pop()
                 i, kind = entry[0], entry[1]
                 if kind == "popper":
-                    ran.append(("cb", i, (i,), (("kw", i),)))
+                    ran.append(("cb", i, (i,), (("kw", i), ("callback", i), ("self", i))))
                     origin = entry[2]
                     # whatever the stack it was registered on holds right now moves to a new stack
                     pending.append(pending[origin])
                     pending[origin] = []
                 elif kind == "cb":
-                    ran.append(("cb", i, (i,), (("kw", i),)))
+                    ran.append(("cb", i, (i,), (("kw", i), ("callback", i), ("self", i))))
                 else:
                     ran.append(("exit", i, exc, "E" if exc else None))
             if exc:
